@@ -60,6 +60,9 @@ func genC19Generated(o *hx.Out, r *rand.Rand) {
 		enums: []xEnum{
 			{name: "EBASE_FLAGS", bitmask: true, entries: []xEntry{{"EBASE_FLAGS_A", "1"}, {"EBASE_FLAGS_B", "0x2"}, {"EBASE_FLAGS_C", "2**2"}}},
 			{name: "EBASE_KIND", entries: []xEntry{{"EBASE_KIND_ZERO", "0"}, {"EBASE_KIND_ONE", "1"}, {"EBASE_KIND_TWO", "2"}}},
+			// decimal values written with leading zeros (they are decimal: 010 is ten, 016 sixteen)
+			{name: "EPADDED_KIND", entries: []xEntry{{"EPADDED_KIND_TEN", "010"}, {"EPADDED_KIND_EIGHT", "8"}, {"EPADDED_KIND_HUNDRED", "0100"}, {"EPADDED_KIND_NINE", "09"}}},
+			{name: "EPADDED_FLAGS", bitmask: true, entries: []xEntry{{"EPADDED_FLAGS_A", "01"}, {"EPADDED_FLAGS_B", "02"}, {"EPADDED_FLAGS_E", "016"}, {"EPADDED_FLAGS_F", "032"}}},
 		}}
 	ext := []xEnum{
 		{name: "EBASE_FLAGS", bitmask: true, entries: []xEntry{{"EBASE_FLAGS_D", "8"}, {"EBASE_FLAGS_HIGH", "2**33"}}},
@@ -75,6 +78,7 @@ func genC19Generated(o *hx.Out, r *rand.Rand) {
 		e.entries = append(append([]xEntry(nil), base.enums[i].entries...), e.entries...)
 		f.enums = append(f.enums, e)
 	}
+	f.enums = append(f.enums, base.enums[len(ext):]...) // the enums of the included definition that are not extended
 	if err := convertIn(gdir, f.addr); err != nil {
 		o.Add("generated enums", "GENERATOR-FAILED "+err.Error(), "expect", "ok", "generated enums")
 		return
